@@ -13,6 +13,13 @@ Two harnesses on the virtual-time loop:
       connection initiator (Bumble runs the server) and as the acceptor (Bumble's
       create_l2cap_channel / create_enhanced_credit_based_channels towards a PSM the peer answers).
 
+  B with a history (generator `h_case`, script operations 'c' and 'L'): a channel is brought to rest, closed by
+      Bumble or by the peer and opened again by Bumble or by the peer (LE or enhanced request; the peer re-uses its
+      CID, takes a fresh one, or one Bumble uses for its own end) while the other channels keep their queued output;
+      or the link is dropped and peer and channels come back. Directed family `wrap_cases`: more than 256 credit
+      packets from Bumble on one link (signalling identifier wrap; the peer discards identifier 0), one credit
+      return of more than 255 credits.
+
 Observation points: every sink delivery; an exact per-host record of L2CAP PDUs (`Monitor`:
 PDUs received = reassembled from the controller->host side of the HCI tap *before* the host
 processes them, PDUs sent = recorded when the stack hands them to Host.send_acl_sdu), from which
@@ -28,7 +35,7 @@ import struct
 
 from hypothesis import strategies as st
 
-from bumble import l2cap
+from bumble import hci, l2cap
 from vlib import vloop, world
 from vlib.runner import HarnessError
 
@@ -44,7 +51,20 @@ RULE = (
     'peer CID plan (same as Bumble would pick, reversed, shifted by one (crossing), 0x71.., scattered in '
     '0x40..0x7F, 0xFFFF..) x peer MTU/MPS/initial credits x credit return policy (low-water mark, refill amount, '
     'laziness) x credits granted immediately after the connection response x script of Bumble writes, peer SDUs '
-    '(own segment size), extra credit grants, sleeps, drains. non-trivial = some SDU needed >=2 K-frames, or a '
+    '(own segment size), extra credit grants, sleeps, drains. '
+    'H (harness B with a history, in-range CID plans, specs biased to 1..5 credits): 1..3 history steps between '
+    'stretches of such a script; a step is either "channel k is brought to rest, closed by Bumble '
+    '(LeCreditBasedChannel.disconnect) or by the peer (L2CAP_Disconnection_Request) and opened again by Bumble or '
+    'by the peer - whichever, so both ends end up as initiators on one link - with an LE or an enhanced request, the '
+    'peer re-using its CID, taking a fresh one, or one that Bumble uses for its own end of a channel" while the '
+    'other channels keep what they have queued (credit starvation included), or "all channels are brought to rest, '
+    'the link is dropped by Bumble or by the peer, the peer connects again and all channels are opened again with '
+    'the same, rotated or fresh peer CIDs"; after every step the channel(s) opened again are written to (and mostly '
+    'receive) beyond their initial credits; the streams of slot k continue across the step. '
+    'W (directed, every shard): Bumble receives with 1 or 2 credits 305+ frames, i.e. returns more than 256 credit '
+    'packets on one link so that its signalling identifier wraps, then closes/reopens a channel and goes on; and '
+    'with 520 credits 305 frames, i.e. one credit return of 260 (> 255) credits. '
+    'non-trivial = some SDU needed >=2 K-frames, or a '
     'sender ran out of credits, or the CIDs of the two ends differ; distinct by the whole case (specs, sizes, script).'
 )
 ASSUMPTIONS = [
@@ -55,6 +75,8 @@ ASSUMPTIONS = [
     '"eventually" = no stall of the virtual loop and completion within a virtual-time horizon of 3600 s',
     'B, at quiescence after a completed run: LeCreditBasedChannel.credits of every Bumble endpoint equals the peer\'s record '
     '(initial credits + credits granted in credit packets - K-frames received)',
+    'quiescence for the ledger clauses = all streams delivered, 2 virtual seconds later, and every credit packet one host '
+    'produced has been seen by the other host (or nothing moved for 10 virtual seconds)',
     'credit ledger per sending host: credits = initial (from the signalling PDUs seen at that host) + credits of '
     'received L2CAP_LE_Flow_Control_Credit frames - K-frames handed to Host.send_acl_sdu, in the exact order the '
     'host saw/produced them; must be > 0 when a K-frame is produced',
@@ -62,6 +84,19 @@ ASSUMPTIONS = [
     'keeps Bumble\'s credit total <= 65535 and always returns credits when its low-water mark is reached '
     '(so drain() blocking until credits arrive is not judged)',
     'peer CIDs outside the LE dynamic range (0xFFFF..): a refusal by Bumble is accepted, otherwise routing must work',
+    'A and B, at quiescence after a completed run, receiver side: the credits the receiving Bumble endpoint accounts to its '
+    'peer (LeCreditBasedChannel.peer_credits) must not exceed what that peer holds by the wire (initial credits + '
+    'credits of the credit packets it received - K-frames it sent): such a credit was never handed over and the peer '
+    'starves before the receiver\'s low-water mark. Accounting FEWER than the peer holds (granting too much) is left '
+    'open by the statement: label only. In A the sender\'s credits are also compared with the wire ledger of its host',
+    'histories: a channel is closed only at rest (everything written on it in either direction has been delivered; '
+    'what happens to data in flight at a close is not stated), the other channels are not; a connection request of '
+    'the conforming peer after a close / on a new link must be accepted whatever legal CID the peer takes (re-used, '
+    'fresh, equal to one of Bumble\'s own) and Bumble\'s own disconnect()/create calls must complete; a data frame '
+    'sent on a channel after its Disconnection Response / after the link went away holds no credit '
+    '(kframe_on_unestablished_cid)',
+    'the conforming peer discards signalling packets with the illegal identifier 0x00 (Vol 3 Part A 4; BlueZ does); '
+    'the consequences (credits that never arrive, a request never answered) are judged by the progress and ledger clauses',
     'K-frames whose L2CAP PDU exceeds 65535 bytes are only generated when the virtual controller can carry '
     'them (probed at start-up, C05 finding); otherwise the MPS of such cases is clamped to 65531 and counted as excluded',
 ]
@@ -110,6 +145,7 @@ class Monitor:
 
     def __init__(self, node):
         self.events: list[tuple[str, int, bytes]] = []
+        self.credit_tx = self.credit_rx = 0  # L2CAP_LE_Flow_Control_Credit packets produced / seen by this host
         self._asm: dict[int, bytearray | None] = {}
         node.tap.listeners.append(self._on_tap)
         host = node.host
@@ -122,11 +158,18 @@ class Monitor:
             if len(raw) >= 4:
                 _ln, cid = struct.unpack_from('<HH', raw)
                 self.events.append(('tx', cid, raw[4:]))
+                if cid == SIG_CID and len(raw) > 4 and raw[4] == 0x16:
+                    self.credit_tx += 1
             return _orig(connection_handle, sdu)
 
         host.send_acl_sdu = send_acl_sdu
 
     def _on_tap(self, direction, packet):
+        if direction == world.C2H and len(packet) >= 7 and packet[0] == 0x04 and packet[1] == 0x05 and packet[3] == 0:
+            # HCI Disconnection Complete: every channel of the link is gone, identifiers start over
+            self.events.append(('reset', 0, b''))
+            self._asm.clear()
+            return
         if direction != world.C2H or not packet or packet[0] != 0x02 or len(packet) < 5:
             return
         hf, ln = struct.unpack_from('<HH', packet, 1)
@@ -142,6 +185,8 @@ class Monitor:
             if len(buf) >= need:
                 cid = struct.unpack_from('<H', buf, 2)[0]
                 self.events.append(('rx', cid, bytes(buf[4:need])))
+                if cid == SIG_CID and need > 4 and buf[4] == 0x16:
+                    self.credit_rx += 1
                 self._asm[handle] = None
 
 
@@ -165,11 +210,15 @@ class Out:
 
 
 def parse_signal(p: bytes):
-    """Harness-side decoder of the five credit based signalling PDUs. -> (code, ident, fields) | None"""
+    """Harness-side decoder of the five credit based signalling PDUs and of the disconnection request /
+    response. -> (code, ident, fields) | None"""
     if len(p) < 4:
         return None
     code, ident, ln = struct.unpack_from('<BBH', p)
     body = p[4 : 4 + ln]
+    if code in (0x06, 0x07) and len(body) >= 4:
+        dcid, scid = struct.unpack_from('<2H', body)
+        return code, ident, {'dcid': dcid, 'scid': scid}
     if code == 0x14 and len(body) >= 10:
         psm, scid, mtu, mps, cr = struct.unpack_from('<5H', body)
         return code, ident, {'psm': psm, 'scids': [scid], 'mtu': mtu, 'mps': mps, 'credits': cr}
@@ -202,7 +251,21 @@ def analyse_host(events):
     rx_req: dict = {}
     tx_req: dict = {}
     viol: list[tuple[str, str]] = []
+
+    def retire(remote):
+        # a closed channel keeps its record (labels) under a key no CID can take
+        info = out.pop(remote, None)
+        if info is not None:
+            out[('closed', sum(1 for r in out if not isinstance(r, int)))] = info
+
     for d, cid, p in events:
+        if d == 'reset':
+            for remote in [r for r in out if isinstance(r, int)]:
+                retire(remote)
+            local.clear()
+            rx_req.clear()
+            tx_req.clear()
+            continue
         if cid == SIG_CID:
             parsed = parse_signal(p)
             if parsed is None or parsed[2] is None:
@@ -218,11 +281,21 @@ def analyse_host(events):
                     if dcid == 0:
                         continue
                     if d == 'tx':  # this host accepted: the remote end is the requester
+                        retire(scid)
                         out[scid] = Out(scid, req['mtu'], req['mps'], req['credits'])
                         local[dcid] = scid
                     else:  # this host asked: the remote end is described by the response
+                        retire(dcid)
                         out[dcid] = Out(dcid, f['mtu'], f['mps'], f['credits'])
                         local[scid] = dcid
+            elif code == 0x07:
+                # Disconnection Response. tx: this host accepted the peer's request (dcid = own end, scid = remote end);
+                # rx: the peer accepted this host's request (dcid = remote end, scid = own end). From here on the
+                # channel holds no credit: a later data frame on it is 'kframe_on_unestablished_cid'.
+                own, remote = (f['dcid'], f['scid']) if d == 'tx' else (f['scid'], f['dcid'])
+                if local.get(own) == remote:
+                    del local[own]
+                    retire(remote)
             elif code == 0x16:
                 if d == 'rx':
                     info = out.get(f['cid'])
@@ -445,6 +518,112 @@ def b_case(draw, caps):
     }
 
 
+def small_spec_st():
+    """Histories want channels that run out of credits while another one is closed and opened again."""
+    return st.tuples(
+        st.one_of(st.sampled_from([23, 48, 64, 100, 256]), st.integers(23, 300)),
+        st.one_of(st.sampled_from([23, 24, 50, 64, 100]), st.integers(23, 300)),
+        st.one_of(st.sampled_from([1, 1, 2, 3, 5]), st.integers(1, 20), st.sampled_from([255, 65535])),
+    ).map(list)
+
+
+@st.composite
+def h_case(draw, caps):
+    """Harness B with a history: channels are closed and opened again (by either end, LE or enhanced request, the peer
+    re-using its identifier, taking a fresh one or one that Bumble uses for its own end), or the link is dropped and
+    everything is set up again, while the other channels keep whatever they have queued. After each history step the
+    channel(s) opened again carry data in both directions."""
+    variant = draw(st.sampled_from(['le', 'enh']))
+    role = draw(st.sampled_from(['peer_initiates', 'bumble_initiates']))
+    n = draw(st.sampled_from([1, 2, 2, 3, 3]))
+    bumble = draw(st.one_of(small_spec_st(), small_spec_st(), spec_st()))
+    peer = draw(st.one_of(small_spec_st(), small_spec_st(), spec_st()))
+    plan = draw(st.sampled_from(['same', 'same', 'reversed', 'shift', 'shift', 'far', 'scatter']))
+    if plan == 'scatter':
+        cids = draw(st.lists(st.integers(0x40, 0x7F), min_size=n, max_size=n, unique=True))
+    else:
+        cids = {'same': [0x40 + i for i in range(n)], 'reversed': [0x40 + n - 1 - i for i in range(n)],
+                'shift': [0x41 + i for i in range(n)], 'far': [0x71 + i for i in range(n)]}[plan]
+    cap = draw(st.sampled_from(caps))
+    ch = st.integers(0, n - 1)
+    wsize = size_st(peer[0], peer[1], cap)
+    ssize = size_st(bumble[0], bumble[1], min(cap, bumble[0]))
+    seg = st.one_of(st.just(bumble[1]), st.just(bumble[1]), st.integers(2, bumble[1]), st.sampled_from([2, 3, 23]))
+    w = st.tuples(st.just('w'), ch, wsize)
+    sd = st.tuples(st.just('s'), ch, ssize, seg)
+    op = st.one_of(
+        w, w, w, sd, sd,
+        st.tuples(st.just('g'), ch, st.sampled_from([1, 1, 2, 7, 300, 65535])),
+        st.tuples(st.just('z'), st.sampled_from([0, 1, 10, 200])),
+        st.tuples(st.just('d'), ch),
+    )
+    reopen = st.tuples(st.just('c'), ch, st.sampled_from('bp'), st.sampled_from('bp'), st.sampled_from(['le', 'enh']),
+                       st.sampled_from(['reuse', 'reuse', 'fresh', 'cross']))
+    relink = st.tuples(st.just('L'), st.sampled_from('bp'), st.sampled_from(['reuse', 'reuse', 'rotate', 'fresh']))
+    steps = draw(st.sampled_from([1, 1, 2, 3]))
+    share = max(30, cap // (steps + 1))
+    # a write that needs more K-frames than the initial credits allow (when that is affordable)
+    beyond = (peer[2] + 1) * peer[1] if (peer[2] + 1) * peer[1] <= 3000 else None
+    script = budgeted(draw(st.lists(op, min_size=0, max_size=5)), share)
+    for _ in range(steps):
+        h = list(draw(st.one_of(reopen, reopen, reopen, relink)))
+        if h[0] == 'c' and n > 1 and draw(st.sampled_from([True, True, True, False])):
+            # another channel still has output queued / waits for credits while this one is closed and opened again
+            j = draw(ch.filter(lambda x: x != h[1]))
+            script.append(['w', j, beyond * draw(st.sampled_from([2, 3, 5])) if beyond else draw(wsize)])
+            if draw(st.booleans()):
+                script.append(['s', j, draw(ssize), draw(st.sampled_from([2, 3, 23]))])
+        script.append(h)
+        ks = [h[1]] if h[0] == 'c' else list(range(n))
+        after = []
+        for k in ks:  # the channel(s) opened again are used, in both directions more often than not
+            after.append(['w', k, beyond * draw(st.sampled_from([1, 1, 2])) + draw(st.integers(0, 2))
+                          if beyond and draw(st.booleans()) else draw(wsize)])
+            for _i in range(draw(st.sampled_from([0, 1, 1, 2, 3]))):
+                after.append(['s', k, draw(ssize), draw(seg)])
+        more = [list(o) for o in draw(st.lists(op, min_size=0, max_size=4))]
+        script += after + budgeted(more, share)
+    for o in script:
+        if o[0] == 's':
+            o[2] = min(o[2], bumble[0])
+            o[3] = max(2, min(o[3], bumble[1]))
+    early = [min(draw(st.sampled_from([0, 0, 1, 3, 40, 5000])), 65535 - peer[2]) for _ in range(n)]
+    low = draw(st.one_of(st.just(0), st.just(0), st.integers(0, max(0, min(peer[2] - 1, 12))), st.just(max(0, peer[2] // 2)),
+                         st.just(max(0, peer[2] - 1))))
+    return {
+        'kind': 'B', 'variant': variant, 'role': role, 'n': n, 'bumble': bumble, 'peer': peer,
+        'plan': plan, 'cids': cids,
+        'delays': [draw(delays_st()), draw(delays_st())],
+        'early': early,
+        'policy': [low, draw(st.sampled_from(['full', 'full', 'one', 'some'])), draw(st.sampled_from([0, 0, 3, 120]))],
+        'script': script,
+    }
+
+
+def wrap_cases(quick):
+    """Directed: Bumble, receiving with 1 or 2 credits, returns more than 256 credit packets on one link (its signalling
+    identifier wraps; 0 is illegal and is discarded by the peer), then a channel is closed and opened again by Bumble
+    (its request carries an identifier from after the wrap) and used in both directions."""
+    i = 0
+    for variant in ('le', 'enh'):
+        for role in ('peer_initiates', 'bumble_initiates'):
+            # one credit return of more than 255 credits: 520 credits, low-water mark 260, 305 frames
+            if not quick or (variant == 'le') == (role == 'peer_initiates'):
+                yield {'kind': 'B', 'variant': variant, 'role': role, 'n': 1, 'bumble': [600, 23, 520],
+                       'peer': [100, 40, 3], 'plan': 'shift', 'cids': [0x41], 'delays': [[], []], 'early': [0],
+                       'policy': [0, 'full', 0], 'script': [['s', 0, 120, 2]] * 5 + [['w', 0, 250], ['s', 0, 100, 7]]}
+            for credits in (1, 2):
+                i += 1
+                if quick and i % 2 != (0 if variant == 'le' else 1):
+                    continue
+                yield {'kind': 'B', 'variant': variant, 'role': role, 'n': 2, 'bumble': [120, 23, credits],
+                       'peer': [100, 40, 3], 'plan': 'shift', 'cids': [0x41, 0x42],
+                       'delays': [[], []] if credits == 1 else [[1], [7]], 'early': [0, 0], 'policy': [0, 'full', 0],
+                       'script': [['s', 0, 120, 2], ['s', 0, 120, 2], ['w', 1, 300], ['s', 0, 120, 2], ['s', 0, 120, 2],
+                                  ['s', 0, 120, 2], ['c', 0, 'p', 'b', variant, 'reuse'], ['s', 0, 100, 7], ['w', 0, 250],
+                                  ['s', 1, 120, 2], ['d', 0]]}
+
+
 # ---------------------------------------------------------------------------
 # shared helpers
 # ---------------------------------------------------------------------------
@@ -455,6 +634,21 @@ def clamp_medium(ctx, spec, total_towards_it):
         ctx.exclude('kframe_pdu_over_65535_not_carried_by_virtual_controller(C05)')
         return [spec[0], limit, spec[2]]
     return list(spec)
+
+
+async def settle_credit_packets(pairs) -> None:
+    """Quiescence for the ledger clauses: waits (virtual time) until every credit packet that one host produced has been
+    seen by the other host. `pairs`: callables -> (produced, seen). Gives up when nothing has moved for 10 virtual
+    seconds (packets that went down with a dropped link, or that a mutant never delivers): the ledgers are compared
+    then as they are. Thousands of credit packets behind 50 ms HCI delays need more than the fixed 2 s."""
+    last, idle = None, 0
+    while idle < 20:
+        cur = [p() for p in pairs]
+        if all(produced <= seen for produced, seen in cur):
+            return
+        idle = idle + 1 if cur == last else 0
+        last = cur
+        await asyncio.sleep(0.5)
 
 
 def run_loop(loop, coro):
@@ -626,6 +820,8 @@ def run_a(ctx, case) -> None:
         await delivered.wait()
         # anything beyond the expected bytes would still be in flight now
         await asyncio.sleep(2.0)
+        m0, m1 = s['mons']
+        await settle_credit_packets([lambda: (m0.credit_tx, m1.credit_rx), lambda: (m1.credit_tx, m0.credit_rx)])
         s['phase'] = 'done'
 
     try:
@@ -684,6 +880,30 @@ def run_a(ctx, case) -> None:
                     fail(f'A/{variant}/stream/mismatch', f'{key[0]} channel {key[1]}: {v[1]}')
                 else:
                     incomplete.append((key, v[1]))
+            # -- credit ledgers at quiescence, per channel and direction: the sender's LeCreditBasedChannel.credits and the
+            #    receiver's peer_credits against the wire ledger of the sending host (initial + credit packets it
+            #    received - K-frames it produced). sender < wire: a grant was lost (starves later); sender > wire: invented
+            #    (a frame without a credit later); receiver > wire: the receiver accounts credits it never handed over
+            #    (the sender starves before the receiver's low-water mark). receiver < wire is left open: not judged.
+            if outcome == 'done' and not incomplete:
+                for d, sender, rd in (('c2s', cnode, 's2c'), ('s2c', snode, 'c2s')):
+                    wire = analyses[sender][0]
+                    rx_by_cid = {r.source_cid: r for r in s['chans'][rd]}
+                    for k, ch in enumerate(s['chans'][d]):
+                        info = wire.get(ch.destination_cid)
+                        if info is None:
+                            continue
+                        if ch.credits != info.credits:
+                            fail(f'A/{variant}/credits/balance_' + ('lost' if ch.credits < info.credits else 'invented'),
+                                 f'{d} channel {k} at quiescence: the sender holds {ch.credits} credit(s), its host saw '
+                                 f'{info.initial} initial + {info.credit_frames} credit packet(s) - {info.frames} K-frame(s) '
+                                 f'= {info.credits}')
+                        r = rx_by_cid.get(ch.destination_cid)
+                        if r is not None and r.peer_credits > info.credits:
+                            fail(f'A/{variant}/credits/receiver_balance_lost',
+                                 f'{d} channel {k} at quiescence: the receiver accounts {r.peer_credits} credit(s) to the '
+                                 f'sender, whose host was given {info.credits}')
+                labels.add('A:credit_ledgers_compared')
             # -- progress
             if outcome != 'done' or incomplete:
                 if incomplete:
@@ -740,6 +960,10 @@ class PChan:
         self.credit_event = asyncio.Event()
         self.sent_bytes = 0
         self.blocked = False
+        self.closed = False
+        self.reopened = False  # this endpoint took the place of a closed one (history operations)
+        self.grants = 0  # credit packets sent to Bumble for this endpoint
+        self.returns = 0  # credit packets received from Bumble for this endpoint
 
 
 class Peer:
@@ -752,7 +976,10 @@ class Peer:
         self.by_bcid: dict = {}
         self.waiters: dict = {}
         self.viol: list = []
-        self.next_accept = 0
+        # channels that answer Bumble's next connection request(s), in order
+        self.to_accept: list = list(self.chans) if case['role'] == 'bumble_initiates' else []
+        self.req_ident = 0
+        self.ident0_dropped = 0
         self.on_progress = lambda: None
 
     # -- signalling ------------------------------------------------------
@@ -767,14 +994,32 @@ class Peer:
         self.by_pcid[ch.pcid] = ch
         self.by_bcid[bcid] = ch
 
+    def next_ident(self):
+        self.req_ident = self.req_ident % 255 + 1
+        return self.req_ident
+
+    def close(self, ch):
+        ch.closed = True
+        if self.by_pcid.get(ch.pcid) is ch:
+            del self.by_pcid[ch.pcid]
+        if self.by_bcid.get(ch.bcid) is ch:
+            del self.by_bcid[ch.bcid]
+
+    def link_lost(self):
+        for ch in self.chans:
+            self.close(ch)
+        self.waiters.clear()
+        self.to_accept = []
+
     def grant(self, ch, n):
         n = min(n, 65535 - ch.ledger)
-        if n <= 0:
+        if n <= 0 or ch.closed:
             return
         self.raw.send(SIG_CID, bytes(l2cap.L2CAP_LE_Flow_Control_Credit(
             identifier=1 + (self.state.setdefault('ident', 0) % 255), cid=ch.pcid, credits=n)))
         self.state['ident'] += 1
         ch.ledger += n
+        ch.grants += 1
         self.state['grants'] = self.state.get('grants', 0) + 1
 
     def _refill(self, ch):
@@ -796,15 +1041,19 @@ class Peer:
             if parsed is None:
                 return
             code, ident, f = parsed
+            if ident == 0:
+                # Vol 3 Part A 4: identifier 0x00 is illegal; a conforming peer discards the packet
+                self.ident0_dropped += 1
+                return
             if f is None:
                 return
-            if code in (0x15, 0x18):
+            if code in (0x15, 0x18, 0x07):
                 fut = self.waiters.pop((code, ident), None)
                 if fut is not None and not fut.done():
                     fut.set_result(f)
-            elif code == 0x14 and self.case['role'] == 'bumble_initiates':
+            elif code == 0x14 and (self.case['role'] == 'bumble_initiates' or self.to_accept):
                 self._accept(ident, f, enhanced=False)
-            elif code == 0x17 and self.case['role'] == 'bumble_initiates':
+            elif code == 0x17 and (self.case['role'] == 'bumble_initiates' or self.to_accept):
                 self._accept(ident, f, enhanced=True)
             elif code == 0x16:
                 ch = self.by_bcid.get(f['cid'])
@@ -815,6 +1064,17 @@ class Peer:
                     return
                 ch.tx_credits += f['credits']
                 ch.credit_event.set()
+                ch.returns += 1
+                self.state['max_return'] = max(self.state.get('max_return', 0), f['credits'])
+                self.state['returns'] = self.state.get('returns', 0) + 1
+            elif code == 0x06:
+                # Bumble closes a channel: dcid = the peer's end, scid = Bumble's end
+                ch = self.by_pcid.get(f['dcid'])
+                if ch is not None and ch.bcid == f['scid']:
+                    self.raw.send(SIG_CID, bytes(l2cap.L2CAP_Disconnection_Response(
+                        identifier=ident, destination_cid=f['dcid'], source_cid=f['scid'])))
+                    self.close(ch)
+            self.on_progress()
             return
         ch = self.by_pcid.get(cid)
         if ch is None:
@@ -847,10 +1107,9 @@ class Peer:
         """Bumble asked for channel(s): answer with the peer's own CIDs, then the early credits."""
         chans = []
         for scid in f['scids']:
-            if self.next_accept >= len(self.chans):
+            if not self.to_accept:
                 return
-            ch = self.chans[self.next_accept]
-            self.next_accept += 1
+            ch = self.to_accept.pop(0)
             self.establish(ch, scid, f['mtu'], f['mps'], f['credits'])
             chans.append(ch)
         if enhanced:
@@ -870,30 +1129,43 @@ class Peer:
             if self.case['early'][ch.index]:
                 self.grant(ch, self.case['early'][ch.index])
 
-    async def initiate(self, psm):
+    async def initiate(self, psm, chans=None, variant=None):
         """The peer asks for the channel(s); Bumble runs the server. -> None | refusal result"""
-        n = len(self.chans)
-        if self.case['variant'] == 'enh':
-            fut = self.wait_for(0x18, 1)
+        chans = list(self.chans if chans is None else chans)
+        n = len(chans)
+        if (variant or self.case['variant']) == 'enh':
+            ident = self.next_ident()
+            fut = self.wait_for(0x18, ident)
             self.raw.send(SIG_CID, bytes(l2cap.L2CAP_Credit_Based_Connection_Request(
-                identifier=1, spsm=psm, mtu=self.mtu, mps=self.mps, initial_credits=self.credits,
-                source_cid=[c.pcid for c in self.chans])))
+                identifier=ident, spsm=psm, mtu=self.mtu, mps=self.mps, initial_credits=self.credits,
+                source_cid=[c.pcid for c in chans])))
             f = await fut
             if f['result'] != 0 or len(f['dcids']) != n or 0 in f['dcids']:
                 return f
-            for ch, dcid in zip(self.chans, f['dcids']):
+            for ch, dcid in zip(chans, f['dcids']):
                 self.establish(ch, dcid, f['mtu'], f['mps'], f['credits'])
             return None
-        for i, ch in enumerate(self.chans):
-            fut = self.wait_for(0x15, i + 1)
+        for ch in chans:
+            ident = self.next_ident()
+            fut = self.wait_for(0x15, ident)
             self.raw.send(SIG_CID, bytes(l2cap.L2CAP_LE_Credit_Based_Connection_Request(
-                identifier=i + 1, le_psm=psm, source_cid=ch.pcid, mtu=self.mtu, mps=self.mps,
+                identifier=ident, le_psm=psm, source_cid=ch.pcid, mtu=self.mtu, mps=self.mps,
                 initial_credits=self.credits)))
             f = await fut
             if f['result'] != 0:
                 return f
             self.establish(ch, f['dcids'][0], f['mtu'], f['mps'], f['credits'])
         return None
+
+    async def disconnect(self, ch):
+        """The peer closes a channel: dcid = Bumble's end, scid = the peer's end; waits for the response."""
+        ident = self.next_ident()
+        fut = self.wait_for(0x07, ident)
+        self.raw.send(SIG_CID, bytes(l2cap.L2CAP_Disconnection_Request(
+            identifier=ident, destination_cid=ch.bcid, source_cid=ch.pcid)))
+        f = await fut
+        self.close(ch)
+        return f
 
     # -- data --------------------------------------------------------------
     async def sender(self, ch):
@@ -914,6 +1186,7 @@ class Peer:
                 ch.tx_credits -= 1
                 self.raw.send(ch.bcid, data[off : off + seg])
             ch.sent_bytes += len(sdu)
+            self.on_progress()
 
 
 def run_b(ctx, case) -> None:
@@ -953,14 +1226,22 @@ def run_b(ctx, case) -> None:
         s['peer'] = peer
         raw.host.on('l2cap_pdu', peer.on_pdu)
         done = asyncio.Event()
+        wake = asyncio.Event()
 
         def check_done():
+            wake.set()
             if all(len(peer.chans[k].rx_stream) >= exp_w[k] for k in range(n)) and all(
                 sum(map(len, s['recv'][k])) >= exp_s[k] for k in range(n)
             ):
                 done.set()
 
         peer.on_progress = check_done
+
+        async def wait_until(cond):
+            # event driven: when nothing can make the condition true any more the loop stalls (vloop.Stalled)
+            while not cond():
+                wake.clear()
+                await wake.wait()
 
         def make_sink(k):
             def sink(data):
@@ -970,30 +1251,48 @@ def run_b(ctx, case) -> None:
             return sink
 
         bchans: list = []
+        slots: list = []  # indices the next channels accepted by Bumble's server take (empty: append)
         bspec = dict(mtu=bumble[0], mps=bumble[1], max_credits=bumble[2])
-        if role == 'peer_initiates':
-            def on_channel(ch):
-                ch.sink = make_sink(len(bchans))
+        mgr = w[0].device.l2cap_channel_manager
+
+        def on_channel(ch):
+            k = slots.pop(0) if slots else len(bchans)
+            ch.sink = make_sink(k)
+            if k < len(bchans):
+                bchans[k] = ch
+            else:
                 bchans.append(ch)
 
+        srv = None
+        if role == 'peer_initiates' or any(o[0] == 'c' and o[3] == 'p' for o in script):
             srv = w[0].device.create_l2cap_server(spec=Spec(**bspec), handler=on_channel)
-            refused = await peer.initiate(srv.psm)
-            if refused is not None:
-                s['refused'] = refused
-                return
-        else:
-            spec = Spec(psm=PEER_PSM, **bspec)
-            if variant == 'le':
-                for _ in range(n):
-                    bchans.append(await conn.create_l2cap_channel(spec=spec))
-                    bchans[-1].sink = make_sink(len(bchans) - 1)
-            else:
-                bchans.extend(
-                    await w[0].device.l2cap_channel_manager.create_enhanced_credit_based_channels(conn, spec, n)
-                )
-                for k, ch in enumerate(bchans):
+        spec = Spec(psm=PEER_PSM, **bspec)
+
+        async def open_all(conn):
+            """All n channels the way the case says (first establishment, and again after a lost link)."""
+            if role == 'peer_initiates':
+                refused = await peer.initiate(srv.psm)
+                if refused is not None:
+                    s['refused'] = refused
+                    return False
+            elif variant == 'le':
+                for k in range(n):
+                    ch = await conn.create_l2cap_channel(spec=spec)
                     ch.sink = make_sink(k)
-        await world.settle(20)
+                    if k < len(bchans):
+                        bchans[k] = ch
+                    else:
+                        bchans.append(ch)
+            else:
+                chans = await mgr.create_enhanced_credit_based_channels(conn, spec, n)
+                for k, ch in enumerate(chans):
+                    ch.sink = make_sink(k)
+                bchans[:] = list(chans)
+            await world.settle(20)
+            return True
+
+        if not await open_all(conn):
+            return
         s['bchans'] = bchans
         if len(bchans) != n or any(c.bcid is None for c in peer.chans):
             s['phase'] = 'setup_count'
@@ -1006,9 +1305,38 @@ def run_b(ctx, case) -> None:
         senders = [loop.create_task(peer.sender(ch)) for ch in peer.chans]
         wpos = s['wpos'] = {k: 0 for k in range(n)}
         spos = s['spos'] = {k: 0 for k in range(n)}
+        hist = s['hist'] = set()
+
+        async def quiesce(k):
+            """Channel k carries nothing any more: everything written on it so far has arrived at the other end."""
+            s['draining'] = k
+            await bchans[k].drain()
+            s.pop('draining', None)
+            await wait_until(lambda: len(peer.chans[k].rx_stream) >= wpos[k]
+                             and sum(map(len, s['recv'][k])) >= spos[k] and peer.chans[k].sent_bytes >= spos[k])
+            peer.chans[k].txq.put_nowait(None)
+            await senders[k]
+
+        def successor(old, pcid):
+            new = PChan(old.index, pcid)
+            new.reopened = True
+            new.rx_stream, new.sent_bytes = old.rx_stream, old.sent_bytes  # the streams of slot k go on
+            peer.chans[old.index] = new
+            return new
+
+        def pick_cid(old, mode):
+            live = {c.pcid for c in peer.chans if not c.closed}
+            if mode == 'reuse':
+                return old.pcid
+            if mode == 'cross':  # the identifier Bumble uses for one of the OTHER live channels, or for the closed one
+                for c in [c for c in peer.chans if not c.closed] + [old]:
+                    if c.bcid not in live and c.bcid != old.pcid and 0x40 <= c.bcid <= 0x7F:
+                        return c.bcid
+            return next(c for c in range(0x40, 0x80) if c not in live and c != old.pcid)
+
         for o in script:
             kind = o[0]
-            if kind in ('w', 's', 'g', 'd') and o[1] >= n:
+            if kind in ('w', 's', 'g', 'd', 'c') and o[1] >= n:
                 continue
             if kind == 'w':
                 bchans[o[1]].write(pattern(o[1], wpos[o[1]], o[2]))
@@ -1025,6 +1353,97 @@ def run_b(ctx, case) -> None:
                 s['draining'] = o[1]
                 await bchans[o[1]].drain()
                 s.pop('draining', None)
+            elif kind == 'c':
+                # history: channel k is brought to rest, closed by one end and opened again by one end while the
+                # other channels go on with whatever they have queued
+                _c, k, who, opener, var2, mode = o
+                await quiesce(k)
+                old = peer.chans[k]
+                s['step'] = f'close_by_{"bumble" if who == "b" else "peer"}'
+                if any(c is not old and (c.blocked or getattr(bchans[c.index], 'out_queue', None)
+                                         or getattr(bchans[c.index], 'out_sdu', None)) for c in peer.chans):
+                    hist.add('H:close_while_other_channel_waits_for_credits')
+                if who == 'b':
+                    await bchans[k].disconnect()
+                else:
+                    await peer.disconnect(old)
+                await world.settle(20)
+                new = successor(old, pick_cid(old, mode))
+                s['step'] = f'reopen_by_{"bumble" if opener == "b" else "peer"}/{var2}'
+                if opener == 'p':
+                    slots.append(k)
+                    refused = await peer.initiate(srv.psm, [new], var2)
+                    if refused is not None:
+                        s['refused'] = refused
+                        return
+                else:
+                    peer.to_accept.append(new)
+                    if var2 == 'le':
+                        bchans[k] = await conn.create_l2cap_channel(spec=spec)
+                    else:
+                        bchans[k] = (await mgr.create_enhanced_credit_based_channels(conn, spec, 1))[0]
+                    bchans[k].sink = make_sink(k)
+                await world.settle(20)
+                if new.bcid is None or bchans[k].source_cid != new.bcid or slots:
+                    s['phase'] = 'setup_count'
+                    return
+                s.pop('step', None)
+                senders[k] = loop.create_task(peer.sender(new))
+                hist.update(('H:reopen', f'H:close_by_{who}/open_by_{opener}'))
+                if new.pcid == old.pcid:
+                    hist.add('H:peer_cid_reused')
+                elif any(c.bcid == new.pcid for c in peer.chans + [old] if c is not new):
+                    hist.add('H:peer_cid_is_a_bumble_cid')
+                else:
+                    hist.add('H:peer_cid_fresh')
+                if new.bcid == old.bcid:
+                    hist.add('H:bumble_cid_reused')
+                if (opener == 'p') != (role == 'peer_initiates') and n > 1:
+                    hist.add('H:both_ends_initiated_channels_on_one_link')
+                if var2 != variant and n > 1:
+                    hist.add('H:le_and_enhanced_on_one_link')
+            elif kind == 'L':
+                # history: every channel is brought to rest, the link is dropped by one end, the peer connects again and
+                # all channels are opened again (same identifiers, rotated, or fresh ones)
+                _l, who, mode = o
+                for k in range(n):
+                    await quiesce(k)
+                s['step'] = f'link_drop_by_{"bumble" if who == "b" else "peer"}'
+                olds = list(peer.chans)
+                gone = asyncio.Event()
+                conn.once('disconnection', lambda *_a: gone.set())
+                if who == 'b':
+                    await conn.disconnect()
+                else:
+                    await raw.host.send_command(hci.HCI_Disconnect_Command(connection_handle=raw.handle, reason=0x13))
+                await gone.wait()
+                await asyncio.sleep(1.0)
+                peer.link_lost()
+                s['step'] = 'reconnect'
+                conn = await raw.connect_to(w[0].device)
+                await asyncio.sleep(0.5)
+                old_cids = [c.pcid for c in olds]
+                if mode == 'rotate':
+                    new_cids = old_cids[1:] + old_cids[:1]
+                elif mode == 'fresh':
+                    free = [c for c in range(0x40, 0x80) if c not in old_cids]
+                    new_cids = free[:n]
+                else:
+                    new_cids = old_cids
+                news = [successor(old, c) for old, c in zip(olds, new_cids)]
+                peer.to_accept = list(news) if role == 'bumble_initiates' else []
+                slots[:] = list(range(n)) if role == 'peer_initiates' else []
+                s['step'] = 'reopen_after_reconnect'
+                if not await open_all(conn):
+                    return
+                if slots or any(c.bcid is None for c in news) or any(
+                        bchans[k].source_cid != news[k].bcid for k in range(n)):
+                    s['phase'] = 'setup_count'
+                    return
+                s.pop('step', None)
+                for k in range(n):
+                    senders[k] = loop.create_task(peer.sender(news[k]))
+                hist.update(('H:relink', f'H:relink_by_{who}', f'H:relink_cids_{mode}'))
         s['phase'] = 'peer_send'
         for ch in peer.chans:
             ch.txq.put_nowait(None)
@@ -1038,6 +1457,8 @@ def run_b(ctx, case) -> None:
         check_done()
         await done.wait()
         await asyncio.sleep(2.0)
+        await settle_credit_packets([lambda: (s.get('grants', 0), s['mon'].credit_rx),
+                                     lambda: (s['mon'].credit_tx, s.get('returns', 0))])
         s['phase'] = 'done'
 
     try:
@@ -1054,17 +1475,30 @@ def run_b(ctx, case) -> None:
             labels.add('write_gt_mtu')
         nontrivial = False
         peer = s.get('peer')
+        step = s.get('step')  # set while a history operation (close / reopen / link drop / reconnect) is under way
+        labels |= s.get('hist', set())
+        if any(o[0] in ('c', 'L') for o in script):
+            labels.add('H')
         if outcome == 'budget':
             labels.add('iteration_budget_hit')
         elif outcome == 'exception':
-            fail(f'{tag}/api_exception/{s["phase"]}/{type(exc).__name__}',
-                 f'{type(exc).__name__}({str(exc)[:120]}) raised in phase {s["phase"]}')
+            fail(f'{tag}/api_exception/{step or s["phase"]}/{type(exc).__name__}',
+                 f'{type(exc).__name__}({str(exc)[:120]}) raised in phase {step or s["phase"]}')
+        elif 'refused' in s and step:
+            now = [hex(c.pcid) for c in peer.chans]
+            fail(f'{tag}/history/{step}/refused',
+                 f'{step}: connection request of a conforming peer refused with result 0x{s["refused"]["result"]:04X} '
+                 f'(the peer\'s CIDs now: {now}; at the start: {[hex(c) for c in cids]})')
         elif 'refused' in s:
             if in_range:
                 fail(f'{tag}/setup/refused', f'connection request with source CIDs {[hex(c) for c in cids]} refused: '
                                              f'result 0x{s["refused"]["result"]:04X}')
             else:
                 labels.add('B:out_of_range_cid_refused')
+        elif step:
+            fail(f'{tag}/history/{step}/{outcome if outcome != "done" else "channel_mismatch"}',
+                 f'{step} did not complete ({outcome}): Bumble\'s channels {[getattr(c, "source_cid", None) for c in s.get("bchans") or []]}, '
+                 f'the peer sees {[(hex(c.pcid), c.bcid) for c in peer.chans]}')
         elif s['phase'] in ('setup', 'setup_count'):
             if in_range or outcome == 'done':
                 fail(f'{tag}/setup/{outcome if s["phase"] == "setup" else "channel_count"}',
@@ -1134,6 +1568,36 @@ def run_b(ctx, case) -> None:
                              f'received {peer.chans[k].rx_frames} K-frame(s), i.e. {granted} are outstanding')
                         break
                 labels.add('B:credit_balance_compared')
+                # -- the same for the other direction: what Bumble, as the receiver, believes the peer may still send must
+                #    not exceed what the peer really holds (initial + credits in Bumble's credit packets - frames sent): a
+                #    credit that Bumble accounts for but never handed over starves the peer before Bumble's low-water mark
+                #    is reached. Granting MORE than it accounts for is left open by the statement: label only.
+                for k in range(n):
+                    believed, holds = s['bchans'][k].peer_credits, peer.chans[k].tx_credits
+                    if believed > holds:
+                        fail(f'{tag}/credits/receiver_balance_lost',
+                             f'channel {k} at quiescence: Bumble accounts {believed} credit(s) to the peer, the peer holds {holds} '
+                             f'(initial credits + credits of the L2CAP_LE_Flow_Control_Credit packets it received - K-frames it '
+                             f'sent; {peer.ident0_dropped} signalling packet(s) carried the illegal identifier 0 and were discarded)')
+                        break
+                    if believed < holds:
+                        labels.add('B:receiver_granted_more_than_it_accounts')
+                labels.add('B:receiver_balance_compared')
+            if s.get('returns'):
+                labels.add('B:bumble_returned_credits')
+            if s.get('returns', 0) >= 256:
+                labels.add('W:credit_packet_identifier_wrapped')
+            if s.get('max_return', 0) > 255:
+                labels.add('W:credit_return_over_255')
+            for ch in peer.chans:
+                if ch.reopened and ch.rx_frames > ch.initial and ch.grants:
+                    labels.add('H:reopened_channel_sent_on_returned_credits')
+                if ch.reopened and ch.returns:
+                    labels.add('H:reopened_channel_returned_credits')
+            if differ and labels & {'H:reopen', 'H:relink'}:
+                labels.add('H:cids_differ')
+            if peer.ident0_dropped:
+                labels.add('B:peer_discarded_identifier_0')
             # -- progress
             if outcome != 'done' or inc_w or inc_s:
                 if inc_w:
@@ -1188,6 +1652,16 @@ def fixed_cases():
                    'plan': 'shift', 'cids': [0x41, 0x42], 'delays': [[], []], 'early': [0, 0],
                    'policy': [0, 'full', 0],
                    'script': [['w', 0, 300], ['s', 1, 100, 50], ['w', 1, 200], ['s', 0, 90, 7], ['d', 0]]}
+            # histories: channel 0 closed and opened again by the other end with the peer's identifier re-used while
+            # channel 1 waits for credits; then the link is dropped and both channels come back with rotated identifiers
+            yield {'kind': 'B', 'variant': variant, 'role': role, 'n': 2, 'bumble': [100, 50, 2], 'peer': [64, 30, 2],
+                   'plan': 'shift', 'cids': [0x41, 0x42], 'delays': [[], []], 'early': [0, 0],
+                   'policy': [0, 'full', 3],
+                   'script': [['w', 0, 200], ['w', 1, 400], ['c', 0, 'b' if role == 'peer_initiates' else 'p',
+                                                             'b' if role == 'peer_initiates' else 'p',
+                                                             'enh' if variant == 'le' else 'le', 'reuse'],
+                              ['w', 0, 300], ['s', 0, 100, 20], ['L', 'p' if variant == 'le' else 'b', 'rotate'],
+                              ['w', 0, 200], ['w', 1, 200], ['s', 1, 90, 7], ['s', 0, 90, 50]]}
 
 
 def run(ctx) -> None:
@@ -1199,6 +1673,11 @@ def run(ctx) -> None:
     caps = [300, 2000, 2000, 6000, 20000] if ctx.quick else [300, 2000, 6000, 20000, 20000, 70000, 200000]
     ctx.hyp('A', lambda c: run_a(ctx, c), a_case(caps), max_examples=ctx.n(640, 42000))
     ctx.hyp('B', lambda c: run_b(ctx, c), b_case(caps), max_examples=ctx.n(800, 56000))
+    # histories (close / reopen / link drop) and the identifier wrap; the small directed family runs on every shard
+    ctx.hyp('H', lambda c: run_b(ctx, c), h_case([300, 1000, 2000, 6000]), max_examples=ctx.n(280, 20000))
+    wraps = list(wrap_cases(ctx.quick))
+    for c in wraps:
+        run_b(ctx, c)
     for label, n in (
         ('A:le', 40), ('A:enh', 40), ('multi_frame_sdu', 80), ('credits_exhausted', 80), ('write_gt_mtu', 60),
         ('bidirectional', 60), ('delayed', 60), ('cids_differ', 60), ('cids_crossing', 10),
@@ -1206,6 +1685,18 @@ def run(ctx) -> None:
         ('B:le/bumble_initiates/cids_differ', 8), ('B:enh/bumble_initiates/cids_differ', 8),
         ('B:early_credits', 20), ('B:peer_granted_credits', 60), ('rx_credits_1', 30), ('rx_mtu_min', 20),
         ('rx_mps_min', 20), ('rx_mtu_top', 10), ('rx_mps_top', 10), ('rx_credits_top', 10),
+        # extension: ledgers on both sides, histories, identifier wrap
+        ('A:credit_ledgers_compared', 300), ('B:receiver_balance_compared', 500), ('B:bumble_returned_credits', 150),
+        ('H', 150), ('H:reopen', 80), ('H:relink', 25), ('H:relink_by_b', 8), ('H:relink_by_p', 8),
+        ('H:close_by_b/open_by_b', 10), ('H:close_by_b/open_by_p', 10), ('H:close_by_p/open_by_b', 10),
+        ('H:close_by_p/open_by_p', 10), ('H:peer_cid_reused', 30), ('H:peer_cid_fresh', 10),
+        ('H:peer_cid_is_a_bumble_cid', 10), ('H:bumble_cid_reused', 30), ('H:cids_differ', 60),
+        ('H:relink_cids_reuse', 5), ('H:relink_cids_rotate', 3), ('H:relink_cids_fresh', 3),
+        ('H:both_ends_initiated_channels_on_one_link', 20), ('H:le_and_enhanced_on_one_link', 20),
+        ('H:close_while_other_channel_waits_for_credits', 15), ('H:reopened_channel_sent_on_returned_credits', 40),
+        ('H:reopened_channel_returned_credits', 40),
+        ('W:credit_packet_identifier_wrapped', sum(1 for c in wraps if c['bumble'][2] <= 2)),
+        ('W:credit_return_over_255', sum(1 for c in wraps if c['bumble'][2] > 255)),
     ):
         ctx.floor(label, n)
 
